@@ -45,7 +45,10 @@ var WrapNext func(walletdb.DB) walletdb.DB
 func NewScenario(t *rapid.T, prop string, c *evid.Case, blocks int, extraAccounts int) *Scenario {
 	seed := rapid.SliceOfN(rapid.Byte(), 32, 32).Draw(t, "seed")
 	t0 := time.Unix(1_700_000_000, 0)
-	f := New(t, prop, &chaincfg.RegressionNetParams, seed, t0, 0)
+	// a quarter of the wallets are opened with a recovery window (the daemon's
+	// default): every start and resynchronisation then runs the recovery loop
+	recov := uint32(rapid.SampledFrom([]int{0, 0, 0, 5}).Draw(t, "recoveryWindow"))
+	f := New(t, prop, &chaincfg.RegressionNetParams, seed, t0, recov)
 	f.WrapDB = WrapNext
 	f.Text = c.Text
 	f.Style = simchain.Style(rapid.IntRange(0, 1).Draw(t, "style"))
@@ -81,7 +84,10 @@ func NewScenario(t *rapid.T, prop string, c *evid.Case, blocks int, extraAccount
 			s.Book.Add(&OwnAddr{Addr: ch, Scope: sc, Account: acct, Branch: 1})
 		}
 	}
-	c.Logf("style=%d chain=%d blocks, accounts per scope=%d, %d own addresses", f.Style, blocks, 1+extraAccounts, len(s.Book.List))
+	c.Logf("style=%d chain=%d blocks, accounts per scope=%d, %d own addresses, recovery window %d", f.Style, blocks, 1+extraAccounts, len(s.Book.List), recov)
+	if recov > 0 {
+		c.Class("opened-with-recovery-window")
+	}
 	return s
 }
 
